@@ -12,6 +12,7 @@
  *   drv_c06 sweep <dlci_lo> <dlci_hi> <maxlen>   Space B: transparency, one frame at a time
  *   drv_c06 resync <part> <nparts>               over-long frame / noise scenarios with following frames
  *   drv_c06 echo                                 DLCI 128 (built-in echo) scenario
+ *   drv_c06 backlog                              255/256/257/512 messages queued, then drained
  *   drv_c06 replay <tok,tok,...>                 one event sequence from reset
  *
  * Tokens: s<dlci>.<hex payload|-> send; S<dlci>.<len>.<first>.<last>.<fill> send a long payload;
@@ -210,7 +211,7 @@ static const char *hex(const uint8_t *p, int n)
 
 /* ------------------------------------------------------------------ reference model */
 struct rmsg { int dlci; int len; const uint8_t *p; };
-#define MAXPEND 8
+#define MAXPEND 1100            /* the backlog scenarios queue up to 513 messages */
 static struct rmsg pend[MAXPEND];
 static int npend;
 static struct rmsg cur;
@@ -535,6 +536,8 @@ static const int PALEN[] = { 0, 1, 1, 1, 1, 2, 2, 3, 1 };
 struct event { char kind; long a; int len; uint8_t pay[8]; };
 
 static uint8_t longbuf[4][70000];
+static uint8_t blstore[1100][2];   /* payloads of the backlog tokens: a running 16-bit counter */
+static int nbl;
 static int nlong;
 
 static int ev_print(char *b, const struct event *e)
@@ -763,7 +766,7 @@ static int run_tokens(const char *s)
 	char tok[64];
 	const char *q = s;
 	int n = 0;
-	nlong = 0; ntokstore = 0;
+	nlong = 0; ntokstore = 0; nbl = 0;
 	tok_src = s; tok_done = 0; trace_fn = tokens_trace;
 	do_reset();
 	bad = 0;
@@ -788,6 +791,21 @@ static int run_tokens(const char *s)
 			if (sscanf(tok + 1, "%d.%d.%x.%x.%x", &d, &len, &first, &last, &fill) != 5 || len < 2 || len > 65000 || nlong >= 4 || d < 0 || d > 128) goto bad_tok;
 			memset(longbuf[nlong], fill, len); longbuf[nlong][0] = first; longbuf[nlong][len - 1] = last;
 			do_send(d, longbuf[nlong], len); nlong++;
+		} else if (tok[0] == 'b' || tok[0] == 'c') {
+			/* backlog: b<dlci>.<n> queues n messages on one DLCI, c<dlciA>.<dlciB>.<n> n messages alternating */
+			int da, db, cnt, i;
+			if (tok[0] == 'b') { if (sscanf(tok + 1, "%d.%d", &da, &cnt) != 2) goto bad_tok; db = da; }
+			else if (sscanf(tok + 1, "%d.%d.%d", &da, &db, &cnt) != 3) goto bad_tok;
+			if (da < 0 || da > 127 || db < 0 || db > 127 || cnt < 1 || nbl + cnt > 1100 || npend + cnt > MAXPEND - 2) goto bad_tok;
+			for (i = 0; i < cnt && !bad; i++) {
+				blstore[nbl][0] = nbl >> 8; blstore[nbl][1] = nbl & 0xff;
+				do_send((i & 1) ? db : da, blstore[nbl], 2); nbl++;
+			}
+		} else if (tok[0] == 'D' && !tok[1]) {
+			/* drain: pull and feed until everything queued has been transmitted, then the transmitter must be idle */
+			long guard = 0;
+			while ((npend || have_cur) && !bad && !abandon && ++guard < 5000) run_frame(1);
+			if (!bad && !abandon) { struct event ie = { 'I' }; ev_apply(&ie); }
 		} else if (tok[0] == 'n') { e.a = strtol(tok + 1, NULL, 16) & 0xff; if (have_cur) goto bad_tok; do_noise(e.a); }
 		else if (tok[0] == 'o') { e.a = strtol(tok + 1, NULL, 10); if (have_cur || e.a < RXBUF) goto bad_tok; do_overlong(e.a); }
 		else if (strchr("pqPQI", tok[0]) && !tok[1]) ev_apply(&e);
@@ -928,6 +946,31 @@ static int do_resync(int part, int nparts)
 	return nviol ? 1 : 0;
 }
 
+/* ------------------------------------------------------------------ transmit backlog */
+/* 255 / 256 / 257 / 512 messages queued (on one DLCI, on two DLCIs alternating, behind one message of a lower
+ * priority DLCI, and while a frame is already on the wire), then drained: every message exactly once, per DLCI in
+ * order, lower DLCI first, and the transmitter idle afterwards */
+static int do_backlog(void)
+{
+	static const int N[] = { 255, 256, 257, 512 };
+	unsigned long ncase = 0;
+	int i, l;
+	for (i = 0; i < 4; i++) for (l = 0; l < 4; l++) {
+		switch (l) {
+		case 0: snprintf(casebuf, sizeof(casebuf), "b5.%d,D", N[i]); break;
+		case 1: snprintf(casebuf, sizeof(casebuf), "c9.5.%d,D", N[i]); break;
+		case 2: snprintf(casebuf, sizeof(casebuf), "b9.%d,s5.7e00,D", N[i]); break;
+		case 3: snprintf(casebuf, sizeof(casebuf), "s10.41,p,p,b4.%d,D", N[i]); break;
+		}
+		run_tokens(casebuf);
+		ncase++;
+	}
+	int hd = report_unconfirmed();
+	fprintf(res, "{\"backlog_cases\": %lu, \"backlog_frames\": %lu, \"exact_deliveries\": %lu, \"wire_octets\": %lu, \"history_dependent_keys\": %d, \"verify_requests\": %lu, \"violations\": %lu}\n",
+		ncase, n_frames, n_exact, n_octets, hd, n_verify, nviol);
+	return nviol ? 1 : 0;
+}
+
 /* ------------------------------------------------------------------ echo DLCI */
 static int do_echo(void)
 {
@@ -995,5 +1038,6 @@ int main(int argc, char **argv)
 	if (!strcmp(argv[1], "sweep") && argc >= 5) return do_sweep(atoi(argv[2]), atoi(argv[3]), atoi(argv[4]));
 	if (!strcmp(argv[1], "resync") && argc >= 4) return do_resync(atoi(argv[2]), atoi(argv[3]));
 	if (!strcmp(argv[1], "echo")) return do_echo();
+	if (!strcmp(argv[1], "backlog")) return do_backlog();
 	return 2;
 }
